@@ -4,5 +4,7 @@ CONSTANTS SR = 2
           DR = 3
           DC = 4
           BatchBug = TRUE
+          ShiftBug = FALSE
 INVARIANT ScheduleIndependent
+INVARIANT ShiftScheduleIndependent
 INVARIANT InsideDetector
